@@ -760,4 +760,165 @@ theorem parseHeader_header_stream (b1 b2 : Bool) (r : Req) (pl : List UInt8) (hl
     hu1, hu2, hu3, rdU16_be16, hs, rdU32_be32, hl, fx, f1, f2]
   simp
 
+/-! ### completeness: what fits is accepted -/
+
+theorem encodeCell_complete {v : RawVal} (h : cellFits v) : ∃ c, encodeCell v = some c := by
+  cases v with
+  | null => exact ⟨_, rfl⟩
+  | unset => exact ⟨_, rfl⟩
+  | val b => simp only [cellFits] at h; simp [encodeCell, h]
+
+theorem addValues_complete {vs : List RawVal} : ∀ {cnt : Nat}, cnt + vs.length ≤ 65535 → (∀ v ∈ vs, cellFits v) →
+    ∃ sv, addValues cnt vs = .ok sv := by
+  induction vs with
+  | nil => intro cnt _ _; exact ⟨_, rfl⟩
+  | cons v vs ih =>
+    intro cnt hc hf
+    simp only [List.length_cons] at hc
+    obtain ⟨c, hcell⟩ := encodeCell_complete (hf v (by simp))
+    obtain ⟨sv, hsv⟩ := ih (cnt := cnt + 1) (by omega) (fun x hx => hf x (by simp [hx]))
+    have hne : ¬ cnt = 65535 := by omega
+    simp [addValues, hne, hcell, hsv]
+
+theorem mkSerVals_complete {vs : List RawVal} (h : valuesFit vs) : ∃ sv, mkSerVals vs = .ok sv :=
+  addValues_complete (by have := h.1; omega) h.2
+
+theorem mkSerValsList_complete {vals : List (List RawVal)} (h : ∀ vs ∈ vals, valuesFit vs) :
+    ∃ svs, mkSerValsList vals = .ok svs := by
+  induction vals with
+  | nil => exact ⟨_, rfl⟩
+  | cons v vs ih =>
+    obtain ⟨sv, hsv⟩ := mkSerVals_complete (h v (by simp))
+    obtain ⟨svs, hsvs⟩ := ih (fun x hx => h x (by simp [hx]))
+    simp [mkSerValsList, hsv, hsvs]
+
+theorem writeString_complete {s : List UInt8} (h : s.length < 2 ^ 16) : ∃ b, writeString s = some b :=
+  (writeString_some_iff s).mpr h
+
+theorem writeLongString_complete {s : List UInt8} (h : s.length < 2 ^ 31) : ∃ b, writeLongString s = some b := by
+  simp [writeLongString, writeIntLength, h]
+
+theorem writeStrings_complete {xs : List (List UInt8)} (h : ∀ x ∈ xs, x.length < 2 ^ 16) :
+    ∃ b, writeStrings xs = some b := by
+  induction xs with
+  | nil => exact ⟨_, rfl⟩
+  | cons x xs ih =>
+    obtain ⟨a, ha⟩ := writeString_complete (h x (by simp))
+    obtain ⟨b, hb⟩ := ih (fun y hy => h y (by simp [hy]))
+    simp [writeStrings, ha, hb]
+
+theorem writeStringPairs_complete {xs : List (List UInt8 × List UInt8)}
+    (h : ∀ x ∈ xs, x.1.length < 2 ^ 16 ∧ x.2.length < 2 ^ 16) : ∃ b, writeStringPairs xs = some b := by
+  induction xs with
+  | nil => exact ⟨_, rfl⟩
+  | cons x xs ih =>
+    obtain ⟨k, v⟩ := x
+    obtain ⟨a, ha⟩ := writeString_complete (h (k, v) (by simp)).1
+    obtain ⟨a2, ha2⟩ := writeString_complete (h (k, v) (by simp)).2
+    obtain ⟨b, hb⟩ := ih (fun y hy => h y (by simp [hy]))
+    simp [writeStringPairs, ha, ha2, hb]
+
+theorem encodeParams_complete {p : Params} (sv : SerVals) (h : ∀ ps, p.pagingState = some ps → ps.length < 2 ^ 31) :
+    ∃ b, encodeParams p sv = some b := by
+  cases hp : p.pagingState with
+  | none => simp [encodeParams, hp]
+  | some ps =>
+    obtain ⟨b, hb⟩ := writeLongString_complete (h ps hp)
+    simp [encodeParams, hp, writeBytes, hb]
+
+theorem encodeBatchStmt_complete {s : BatchStmt} (h : stmtFits s) : ∃ b, encodeBatchStmt s = .ok b := by
+  cases s with
+  | query t =>
+    obtain ⟨b, hb⟩ := writeLongString_complete (s := t) h
+    simp [encodeBatchStmt, hb]
+  | prepared i =>
+    obtain ⟨b, hb⟩ := writeString_complete (s := i) h
+    simp [encodeBatchStmt, writeShortBytes, hb]
+
+theorem batchLoop_complete {n : Nat} {stmts : List BatchStmt} : ∀ {idx : Nat} {svs : List SerVals},
+    stmts.length = svs.length → (∀ s ∈ stmts, stmtFits s) → (∀ v ∈ svs, v.count ≤ 65535) →
+    ∃ b, batchLoop n idx stmts svs = .ok b := by
+  induction stmts with
+  | nil =>
+    intro idx svs hl _ _
+    have : svs = [] := by cases svs with
+      | nil => rfl
+      | cons _ _ => simp at hl
+    subst this
+    simp [batchLoop]
+  | cons s ss ih =>
+    intro idx svs hl hs hv
+    cases svs with
+    | nil => simp at hl
+    | cons v vs =>
+      obtain ⟨sb, hsb⟩ := encodeBatchStmt_complete (hs s (by simp))
+      obtain ⟨rest, hrest⟩ := ih (idx := idx + 1) (svs := vs) (by simpa using hl)
+        (fun x hx => hs x (by simp [hx])) (fun x hx => hv x (by simp [hx]))
+      have hc : ¬ v.count > 65535 := by have := hv v (by simp); omega
+      simp [batchLoop, hsb, hc, hrest]
+
+theorem mkSerValsList_counts {vals : List (List RawVal)} : ∀ {svs : List SerVals}, mkSerValsList vals = .ok svs →
+    ∀ v ∈ svs, v.count ≤ 65535 := by
+  induction vals with
+  | nil => intro svs h; rw [mkSerValsList_nil h]; intro v hv; cases hv
+  | cons x xs ih =>
+    intro svs h v hv
+    obtain ⟨sv, svs', hsv, hrest, rfl⟩ := mkSerValsList_cons h
+    simp only [List.mem_cons] at hv
+    rcases hv with rfl | hv
+    · exact (mkSerVals_ok hsv).2.1
+    · exact ih hrest v hv
+
+theorem encodeBody_complete {r : Req} (h : Representable r) : ∃ b, encodeBody r = .ok b := by
+  cases r with
+  | startup opts =>
+    obtain ⟨h1, h2⟩ := h
+    obtain ⟨b, hb⟩ := writeStringPairs_complete h2
+    have hl : opts.length < 2 ^ 16 := by omega
+    simp [encodeBody, writeStringMap, writeShortLength, hl, hb]
+  | options => exact ⟨_, rfl⟩
+  | query text p =>
+    obtain ⟨h1, h2, h3⟩ := h
+    obtain ⟨sv, hsv⟩ := mkSerVals_complete h2
+    obtain ⟨t, ht⟩ := writeLongString_complete h1
+    obtain ⟨ps, hps⟩ := encodeParams_complete sv h3
+    simp [encodeBody, hsv, ht, hps]
+  | prepare text =>
+    obtain ⟨t, ht⟩ := writeLongString_complete (s := text) h
+    simp [encodeBody, ht]
+  | execute id mid p =>
+    obtain ⟨h1, hm, h2, h3⟩ := h
+    obtain ⟨sv, hsv⟩ := mkSerVals_complete h2
+    obtain ⟨i, hi⟩ := writeString_complete h1
+    obtain ⟨ps, hps⟩ := encodeParams_complete sv h3
+    cases mid with
+    | none => simp [encodeBody, hsv, writeShortBytes, hi, hps]
+    | some m =>
+      obtain ⟨mb, hmb⟩ := writeString_complete (hm m rfl)
+      simp [encodeBody, hsv, writeShortBytes, hi, hmb, hps]
+  | register evs =>
+    have hl : (evs.map eventName).length < 2 ^ 16 := by simp only [Representable] at h; simp; omega
+    have hnames : ∀ x ∈ evs.map eventName, x.length < 2 ^ 16 := by
+      intro x hx
+      simp only [List.mem_map] at hx
+      obtain ⟨e, _, rfl⟩ := hx
+      cases e <;> decide
+    obtain ⟨b, hb⟩ := writeStrings_complete hnames
+    simp only [encodeBody, writeStringList, writeShortLength, hl, if_true, hb]
+    exact ⟨_, rfl⟩
+  | batch ty stmts vals c sc ts =>
+    obtain ⟨h1, h2, h3, h4⟩ := h
+    obtain ⟨svs, hsvs⟩ := mkSerValsList_complete h4
+    have hlen := mkSerValsList_length hsvs
+    obtain ⟨b, hb⟩ := batchLoop_complete (n := stmts.length) (idx := 0) (stmts := stmts) (svs := svs) (by omega) h3
+      (mkSerValsList_counts hsvs)
+    have hn : ¬ stmts.length > 65535 := by omega
+    simp [encodeBody, hsvs, encodeBatch, hn, hb]
+  | authResponse resp =>
+    cases resp with
+    | none => exact ⟨_, rfl⟩
+    | some x =>
+      obtain ⟨b, hb⟩ := writeLongString_complete (h x rfl)
+      simp [encodeBody, writeBytesOpt, writeBytes, hb]
+
 end ScyllaVerif.Proofs.Request
